@@ -308,7 +308,38 @@ func ruleOneOperatorPerRegion(c *Ctx) {
 	sites, _ := c.nonScaffoldCallers(addLocked)
 	for _, s := range sites {
 		fn := s.Caller
-		g := guardCall("checkAddOperator(ops…)", true, callMatcher(checkAdd))
+		// the accepted check must have covered *this* operator: it was given the very slice the operator is
+		// taken from (ops...), or an argument list containing it — not a part of the batch (ops[0])
+		opArg := callArgs(s.Instr.Common())
+		covers := func(cl *ssa.Call) bool {
+			if !checkAdd.Match(cl.Common()) {
+				return false
+			}
+			a := callArgs(cl.Common())
+			if len(a) != 1 || len(opArg) != 1 {
+				return false
+			}
+			if u, ok := strip(opArg[0]).(*ssa.UnOp); ok && u.Op == token.MUL {
+				if ia, ok := u.X.(*ssa.IndexAddr); ok {
+					return sameVal(a[0], ia.X) || sameVal(resolved(a[0]), resolved(ia.X))
+				}
+			}
+			if sl, ok := strip(a[0]).(*ssa.Slice); ok {
+				if al, ok := sl.X.(*ssa.Alloc); ok {
+					for _, r := range *al.Referrers() {
+						if ia, ok := r.(*ssa.IndexAddr); ok {
+							for _, rr := range *ia.Referrers() {
+								if st, ok := rr.(*ssa.Store); ok && st.Addr == ssa.Value(ia) && sameVal(st.Val, opArg[0]) {
+									return true
+								}
+							}
+						}
+					}
+				}
+			}
+			return false
+		}
+		g := guardCall("checkAddOperator(all of the batch)", true, covers)
 		lk := &lockEv{ocLock, true}
 		g.invalidate = func(ins ssa.Instruction) bool {
 			f, op, d := lockOp(ins)
@@ -596,6 +627,27 @@ func ruleStaleDetection(c *Ctx) {
 		return ok && b.Op == token.SUB && resultOfCall(getConf)(b.X) && resultOfCall(getConf)(b.Y)
 	}, resultOfCall(confChanged))
 	c.need(rule, cs, "call RemoveOperator", instrCallMatcher(remove), []Ev{failedSafety, diffGT}, anyOf, "an operator is cancelled as stale only when its step's precondition fails or the conf version advanced by more than its steps account for")
+	// … and the other way round: "not stale" is answered only after the step's precondition held and the
+	// conf version was found within the steps' accounting, whatever kind of operator it is
+	passedSafety := newOkEv(cs, "CheckSafety passed", callMatcher(safety))
+	within := guardRel("Δconf_ver <= accounted", "<=", func(v ssa.Value) bool {
+		b, ok := strip(v).(*ssa.BinOp)
+		return ok && b.Op == token.SUB && resultOfCall(getConf)(b.X) && resultOfCall(getConf)(b.Y)
+	}, resultOfCall(confChanged))
+	c.need(rule, cs, "answer 'not stale'", func(x ssa.Instruction) bool {
+		r, ok := x.(*ssa.Return)
+		if !ok || len(r.Results) != 1 {
+			return false
+		}
+		b, isB := constBool(retVal(r, 0))
+		return isB && !b
+	}, []Ev{passedSafety, within, &calledEv{name: "RemoveOperator attempted", match: instrCallMatcher(remove)},
+		&calledEv{name: "RemoveOperator attempted after the conf-version comparison", match: instrCallMatcher(remove), reset: func(x ssa.Instruction) bool {
+			b, ok := x.(*ssa.BinOp)
+			return ok && b.Op == token.SUB && resultOfCall(getConf)(b.X) && resultOfCall(getConf)(b.Y)
+		}}},
+		func(h []bool) bool { return (h[0] || h[2]) && (h[1] || h[3]) },
+		"an operator is kept only if its current step's precondition holds and the conf version advanced by no more than its steps account for (or its removal was attempted and it was no longer registered)")
 	n := len(callsIn(cs, false, remove))
 	c.Check(n >= 2, rule, "stale conditions in "+fnName(cs), "both conditions (precondition, conf-version accounting) cancel the operator", P.pos(cs.Pos()), fmt.Sprintf("%d removal sites", n))
 	// latest − origin: minuend from the heartbeat region, subtrahend from the operator's recorded epoch
